@@ -47,7 +47,11 @@ pub fn show_sql_value(v: &DataType) -> String {
 
 pub fn classify_err(msg: &str) -> String {
     let m = msg.to_lowercase();
-    let class = if m.contains("out of memory") {
+    let class = if m.contains("expected overflow frame") {
+        // an overflow-chain pointer that leads to a page of another kind: the recorded B+tree large-cell defect
+        // (catalog rows are large cells); kept apart so that it cannot be mistaken for an ordinary statement error
+        "overflowframe"
+    } else if m.contains("out of memory") {
         "oom"
     } else if m.contains("parse error") {
         "parse"
